@@ -19,7 +19,7 @@ def cname(hid, k, pub):
 PYNAME = {"m1": "m_one", "m2": "m_two"}       # Python names with an inner underscore (they change under naming conversion)
 
 
-def class_src(hid, k, c, h, attrshadow=False, abstract="", viamodule=False) -> str:
+def class_src(hid, k, c, h, attrshadow=False, abstract="", viamodule=False, methkind="") -> str:
     bases = ", ".join((f"inha_base.{cname(hid, b, h[b - 1]['pub'])}[int]" if viamodule and b == 1 else cname(hid, b, h[b - 1]["pub"])) for b in c["bases"])
     if viamodule and k == 1:
         bases = (bases + ", " if bases else "") + "Generic[T_inh]"
@@ -29,6 +29,9 @@ def class_src(hid, k, c, h, attrshadow=False, abstract="", viamodule=False) -> s
     for m in sorted(c["ms"]):
         if attrshadow and c["pub"]:
             L += [f"    {PYNAME[m]}: int = {k}", ""]
+        elif methkind and not c["pub"]:
+            L += [f"    @{methkind}method" if methkind == "static" else "    @classmethod",
+                  f"    def {PYNAME[m]}({'' if methkind == 'static' else 'cls, '}from_c{k}: int) -> int:", "        ...", ""]
         else:
             L += [f"    def {PYNAME[m]}(self, from_c{k}: int) -> int:", "        ...", ""]
     if not c["ms"]:
@@ -53,7 +56,7 @@ def main(v: Verdict) -> None:
             if sc.get("aliased"):
                 inits.append(f"from .{'inha_base' if sc['split'] else 'inha'} import {cname(hid, 1, False)} as H{hid}C1Shown")
             for k, c in enumerate(h, 1):
-                src = class_src(hid, k, c, h, sc.get("attrshadow", False), sc.get("abstract", ""), sc.get("viamodule", False))
+                src = class_src(hid, k, c, h, sc.get("attrshadow", False), sc.get("abstract", ""), sc.get("viamodule", False), sc.get("methkind", ""))
                 if sc["split"] and k == 1:
                     b_parts.append(src)
                     imports.append(f"from {pkg} import inha_base" if sc.get("viamodule") else f"from {pkg}.inha_base import {cname(hid, 1, c['pub'])}")
@@ -124,6 +127,8 @@ def main(v: Verdict) -> None:
                     scj["abstract"] = sc["abstract"]
                 if sc.get("viamodule"):
                     scj["viamodule"] = True
+                if sc.get("methkind"):
+                    scj["methkind"] = sc["methkind"]
                 obs.append({"id": f"H{hid}C{k}" + (":nc" if nc else ""), "sc": scj, "obs": o})
     bad = judge(v, "C17_Trace", obs)
     by_id = {o["id"]: o for o in obs}
@@ -131,7 +136,7 @@ def main(v: Verdict) -> None:
         o = by_id.get(b.get("subject"))
         if o:
             hid = int(re.match(r"H(\d+)C", o["id"]).group(1))
-            b["python"] = "".join(class_src(hid, k, c, o["sc"]["h"], o["sc"].get("attrshadow", False), o["sc"].get("abstract", ""), o["sc"].get("viamodule", False)) for k, c in enumerate(o["sc"]["h"], 1))
+            b["python"] = "".join(class_src(hid, k, c, o["sc"]["h"], o["sc"].get("attrshadow", False), o["sc"].get("abstract", ""), o["sc"].get("viamodule", False), o["sc"].get("methkind", "")) for k, c in enumerate(o["sc"]["h"], 1))
             b["split"] = o["sc"]["split"]
     v.add_bad(bad)
     v.samples = [{"hierarchy": o["sc"], "observed": o["obs"]} for o in obs[:: max(1, len(obs) // 3)]][:3]
